@@ -173,10 +173,12 @@ fn c02_add_and_enable() {
     let existed = Breakpoint::new_linker_map(RelocatedAddress::from(addr), Pid::from_raw(1));
     let r0 = existed.enable();
     assert!(r0.is_ok(), "C02.add_and_enable.E0");
+    assert!(existed.saved_data.get() as u64 == orig & 0xff && mem() == (orig & !0xff) | 0xCC, "C02.add_and_enable.E0a the first breakpoint is armed and holds the original byte");
     let reg = RegistryShim { breakpoints: OneSlotMap { slot: Some(existed) } };
     let fresh = Breakpoint::new_linker_map(RelocatedAddress::from(addr), Pid::from_raw(1));
     let r1 = reg.add_and_enable_prefix(&fresh);
     assert!(r1.is_ok(), "C02.add_and_enable.E0");
+    assert!(unsafe { WRITES } == 3 && unsafe { READS } == 3, "C02.add_and_enable.E0b the old breakpoint was disabled (one peek/poke) before the new one was armed (one peek/poke)");
     assert!(mem() & 0xff == 0xCC && mem() & !0xff == orig & !0xff, "C02.add_and_enable.E1 the address stays patched with INT3, other bytes untouched");
     assert!(fresh.saved_data.get() as u64 == orig & 0xff, "C02.add_and_enable.E2 the replacing breakpoint saved the ORIGINAL instruction byte, not the old patch");
     let r2 = fresh.disable();
